@@ -1,5 +1,6 @@
 """C16 - algorithms see the domain only through the partition: affine equivariance (metamorphic)"""
 import collections
+from fractions import Fraction as F
 
 import numpy as np
 
@@ -9,13 +10,13 @@ from .. import twin as TW
 PROP = "C16"
 EXACT_PARTS = ["Bin", "DimBin", "K2", "K4"]
 RULE = ("the same case is run on a box D and on s*D+b with identical seed and rewards. Exact tier: Bin/DimBin/K2/K4, "
-        "dyadic boxes, b dyadic, s = 2^m: every point and the recommendation must equal the image bit for bit (all "
+        "dyadic boxes, b dyadic (up to 2^33), s = 2^m (m in -24..24): every point and the recommendation must equal the image bit for bit (all "
         "algorithms except VROOM; DOO with its default diameter only under translation). Tolerance tier: any s>0 and "
-        "b, all partitions: within 1e-9*(|s|*width+|b|+|s*lo|) of the image (all algorithms except DOO-default and "
+        "b (half of them 1..1e9 away from the origin), all partitions: within 1e-9*|s|*width + 256 ulp(image magnitude) of the image (all algorithms except DOO-default and "
         "Zooming on the even equal-size partitions, where an ulp decides which child keeps the arm); non-trivial = "
         ">= 50 points compared")
 ASSUMPTIONS = [
-    "exact tier uses maps that are exact in binary floating point (power-of-two scaling, dyadic translation of dyadic boxes); a run is compared bit for bit up to the first point with more than 40 fractional bits (cells a few ulps wide, where s*x+b is no longer representable)",
+    "exact tier uses maps that are exact in binary floating point (power-of-two scaling, dyadic translation of dyadic boxes); a run is compared bit for bit up to the first point with more than 40 fractional bits or whose image s*x+b is not exactly representable or has more than 50 significant bits (then the image run's own midpoint sums lo+hi would round)",
     "VROOM's lo + (hi-lo)*u sampling is not bit-exactly translation invariant: tolerance tier only",
     "DOO's default diameter function depends on cell size: translation only (documented exception)",
     "a genuine coordinate dependence moves points by whole cell widths, 6+ orders of magnitude above the tolerance",
@@ -24,6 +25,17 @@ FLOOR = {"points_compared": {"quick": 80000, "thorough": 1500000}, "points_compa
          "tolerance_twins": {"quick": 200, "thorough": 4000}}
 WALL = {"quick": 1200, "thorough": 4 * 3600}
 ALG = [a for a in C.ALGOS]
+
+
+def sigbits(v):
+    """number of significant bits of a float (distance between its highest and lowest set bit + 1)"""
+    if v == 0:
+        return 0
+    m = abs(F(v))
+    n, d = m.numerator, m.denominator  # d is a power of two
+    while n % 2 == 0:
+        n //= 2
+    return n.bit_length() if d == 1 else (m.numerator.bit_length() - (len(bin(m.numerator)) - len(bin(m.numerator).rstrip("0"))))
 
 
 def gen_cases(rng, tier, count=None):
@@ -44,8 +56,13 @@ def gen_cases(rng, tier, count=None):
             for _ in range(dim):
                 lo = float(rng.integers(-8, 8)) / 4
                 box.append([lo, lo + float(2.0 ** rng.integers(-3, 4))])
-            s = float(2.0 ** rng.integers(-3, 4))
-            b = [float(rng.integers(-64, 64)) / 8 for _ in range(dim)]
+            if rng.random() < 0.5:
+                s = float(2.0 ** rng.integers(-3, 4))
+                b = [float(rng.integers(-64, 64)) / 8 for _ in range(dim)]
+            else:
+                # far from the origin / tiny or huge scale (still exact: power-of-two scale, dyadic translation)
+                s = float(2.0 ** rng.integers(-24, 25))
+                b = [float(rng.integers(-64, 64)) * float(2.0 ** rng.integers(-3, 28)) for _ in range(dim)]
             if algo == "DOO":
                 s = 1.0
         else:
@@ -60,8 +77,14 @@ def gen_cases(rng, tier, count=None):
                 lo = float(rng.uniform(-5, 5))
                 box.append([lo, lo + float(10 ** rng.uniform(-2, 2))])
             s = float(10 ** rng.uniform(-2, 2))
-            b = [float(rng.uniform(-100, 100)) for _ in range(dim)]
+            if rng.random() < 0.5 or algo == "Zooming":
+                # (Zooming compares the arm with the children's faces: far from the origin the float grid becomes
+                # comparable to the cell width and rounding, not geometry, decides which child keeps the arm)
+                b = [float(rng.uniform(-100, 100)) for _ in range(dim)]
+            else:
+                b = [float(rng.choice([-1, 1]) * 10 ** rng.uniform(0, 9)) for _ in range(dim)]
         c["box"] = box
+        c.pop("alias_box", None)  # the image box has its own translation per coordinate
         c["box_kind"] = "dyadic" if exact else "affine"
         c["affine"] = {"s": s, "b": b, "exact": exact}
         out.append(c)
@@ -88,14 +111,17 @@ def run_case(case):
             if exact:
                 # exact arithmetic is guaranteed only while coordinates are dyadic with <= 40 fractional bits (cells
                 # not yet a few ulps wide); deeper points belong to the tolerance tier
-                if any((x * 2.0 ** 40) != int(x * 2.0 ** 40) or abs(x) > 1024 for x in p):
+                if any((x * 2.0 ** 40) != int(x * 2.0 ** 40) or abs(x) > 1024 for x in p) or any(
+                        F(s) * F(x) + F(bj) != F(w) or sigbits(w) > 50 for x, bj, w in zip(p, b, want)):
                     obs["exactness_horizon_reached"] += 1
                     break
                 obs["points_compared_bit_exactly"] += 1
                 ok = want == q
             else:
-                ok = all(abs(w - y) <= 1e-9 * (abs(s) * (hi - lo) + abs(bj) + abs(s * lo))
-                         for w, y, (lo, hi), bj in zip(want, q, case["box"], b))
+                # relative to the box width, plus a few ulps of the image's magnitude (far from the origin the
+                # image coordinates themselves are only known to an ulp)
+                ok = all(abs(w - y) <= 1e-9 * abs(s) * (hi - lo) + 256 * float(np.spacing(
+                    abs(bj) + abs(s) * (abs(lo) + abs(hi)))) for w, y, (lo, hi), bj in zip(want, q, case["box"], b))
             if not ok:
                 viol.append({"pred": "C16:points_are_not_the_affine_image" + ("_exactly" if exact else ""),
                              "round": i, "detail": C.jsonable({"point": p, "image_expected": want, "image_got": q,
